@@ -36,10 +36,11 @@ func run(repo, dir string, seed uint64, tier, thriftgo, plug string) int {
 	if tier == "thorough" {
 		nReq, nSyn, nTree, nStr, nProc = 1500, 600, 1000, 3000, 120
 	}
-	h.regressions() // repaired defects first
+	// repaired defects first
 	if thriftgo != "" && plug != "" {
 		h.processRegressions()
 	}
+	h.regressions()
 	h.directed()
 	h.suiteRequests(nReq)
 	h.suiteSynthetic(nSyn)
@@ -340,10 +341,11 @@ func (h *harness) suiteSynthetic(n int) {
 //    number: UnmarshalResponse/UnmarshalRequest must return an error (thriftgo then fails with a message)
 //  - (process level, see suiteProcess) garbled plugin output of that kind, and two -g with one -p
 func (h *harness) regressions() {
-	for _, bs := range malformed {
+	for k, bs := range malformed {
 		for _, c := range []codec{h.resCodec(), h.reqCodec()} {
 			h.out.Count("regression:malformed-bytes")
-			if bad, why := h.unmarshalPanics(c, bs); bad {
+			// one stable oracle key per codec (the minimal witness); the other shapes are correspondence cases
+			if bad, why := h.unmarshalPanics(c, bs); bad && k == 0 {
 				h.out.Fail(vl.OracleFail{
 					Key:      keyOf("unmarshal-panic", fmt.Sprintf("%d %s", c.sidx, vl.Hex(string(bs)))),
 					What:     "Unmarshal" + h.sc.Structs[c.sidx].Name + " panics on malformed bytes instead of returning an error",
@@ -364,13 +366,6 @@ func (h *harness) regressions() {
 		}
 		c := h.resCodec()
 		h.out.Count("regression:random-bytes")
-		if bad, why := h.unmarshalPanics(c, bs); bad {
-			h.out.Fail(vl.OracleFail{
-				Key:      keyOf("unmarshal-panic", fmt.Sprintf("%d %s", c.sidx, vl.Hex(string(bs)))),
-				What:     "UnmarshalResponse panics on malformed bytes instead of returning an error",
-				Input:    map[string]interface{}{"kind": "bytes", "sidx": c.sidx, "hex": vl.Hex(string(bs))},
-				Expected: "an error or a value", Observed: why})
-		}
 		h.unmCase(c, bs, true)
 	}
 }
